@@ -70,7 +70,7 @@ fn gen_message(gen: &Gen, acc: &mut Acc, rng: &mut Rng, max_units: usize) -> Seq
     // the path must survive the payload newline, also when process sees it at the end of a read
     let clean = rng.chance(1, 5);
     let lit = LitOpts { payload_newline: clean, wild_payload: false, max_payload: 4 };
-    let k = if rng.chance(1, 25) { rng.range(9, 12) } else { rng.range(1, max_units) };
+    let k = if rng.chance(1, 25) { rng.range(9, 20) } else { rng.range(1, max_units) };
     let mut path: Vec<String> = Vec::new();
     let mut units = Vec::new();
     for _ in 0..k {
